@@ -532,4 +532,10 @@ def geometric(ctx):
     return res
 
 
-RULES = [dft_sampling, working_fno, def_assign, shapes, geometric]
+def no_stale(ctx):
+    from .common import stale_cache
+    return stale_cache(ctx, 'NO-STALE-STATE', ['FFTPSF', 'FFTMTF', 'GeometricMTF'],
+                       'the PSF / MTF contains data of an earlier evaluation', min_methods=1)
+
+
+RULES = [no_stale, dft_sampling, working_fno, def_assign, shapes, geometric]
